@@ -1,5 +1,5 @@
 import FatVerif.Props.C09
-import FatVerif.Proofs.FaultSim7
+import FatVerif.Proofs.FaultSim10
 import FatVerif.Props.C01sim
 /-! # C09, continued: the roll-back of `write_entry` never fails on a writable directory
 
@@ -22,9 +22,11 @@ the fault schedule of `d` itself is arbitrary) that cannot happen — Proofs/Fau
   the `j` slots seeks to its start and writes `0xE5`), so `write_entry` returns exactly `io k`.
 
 `DirSim.FaultOK V` is the per-kind obligation "a slot write hit by the fault leaves the directory's invariant intact":
-PROVED for the fixed root (`faultOK_ofRoot`: size, well-formedness of the page table and geometry survive every run);
-for cluster-chain directories it amounts to "a faulted `File::write` inside the allocated clusters leaves the FAT
-alone" and is a hypothesis here. The fault may hit ANY device call of the operation. Single-component paths; the new
+PROVED for all three kinds — the fixed root (`faultOK_ofRoot`: size, well-formedness of the page table and geometry
+survive every run), the root of FAT32 (`faultOK_ofChain`) and sub-directories (`faultOK_ofSub`): a `File::write` inside
+the allocated clusters that is hit by the fault leaves the first FAT copy alone (`fileWrite_fatKept`: the status byte,
+then reads, then one device write in the data region — the allocation branch is not taken, as on the disarmed device),
+hence the chain of the directory is still in the FAT (Proofs/FaultSim8–10). The fault may hit ANY device call of the operation. Single-component paths; the new
 entry fits into the allocated slots (no growth). -/
 
 open DirSim in
@@ -340,6 +342,55 @@ example (k : Nat) : ∀ r d', run (rename Ex3.env 1 (rootAt Ex4.dev.fs 0) "hello
       have : DirSlots.findFree (rootDirSlots Ex4.dev.fs Ex4.dev.img)
           (Lfn.numParts (Names.encodeUtf16 "Moved.txt".toList).length + 1) +
           (Lfn.numParts (Names.encodeUtf16 "Moved.txt".toList).length + 1) ≤ 16 := by decide +kernel
+      exact this) 0
+
+/-! ## cluster-chain directories -/
+
+open DirSim FileSim in
+/-- **`create_file` in a cluster-chain directory without an entry (the root of FAT32): plain `Propagates`** on every
+    device (any fault schedule) on which the directory is readable; the entry fits into the allocated clusters -/
+theorem createFile_propagates_chain {d : Dev} {c0 : Nat} {chain : List Nat} (h : ChainReadable d.disarm c0 none chain)
+    (hwf : d.img.WF) (hd : d.fault = none) (env : Env) (path name : String)
+    (hsp : Names.splitPath path = (name, none)) (ha : d.fs.lfnAlloc = true)
+    (hfit : ∀ a, DirAlias.checkForExistenceL env.upper (chainSlots d.fs d.img chain) name (some false) 70000 = .ok (.alias a) →
+      DirSlots.findFree (chainSlots d.fs d.img chain) (Lfn.numParts (Names.encodeUtf16 name.toList).length + 1) +
+        (Lfn.numParts (Names.encodeUtf16 name.toList).length + 1) ≤ chain.length * (d.fs.clusterSize / 32)) (fuel : Nat) :
+    ∀ r d', run (createFile env (fuel + 1) (.file (FileH.new (some c0) none)) path) d = (r, d') →
+      FaultOutcome (resErr r) d' := by
+  have hsl : srcSlots d.img (chainSrc d.fs chain) (chain.length * (d.fs.clusterSize / 32)) = chainSlots d.fs d.img chain :=
+    h.slots_eq
+  exact createFile_propagates_wview (WView.ofChain d.disarm c0 chain h.dir hwf h.fuel) hd
+    (faultOK_ofChain _ _ _ _ _ _) env path name hsp ha
+    (fun a hc => by
+      have hc' : DirAlias.checkForExistenceL env.upper (chainSlots d.fs d.img chain) name (some false) 70000 =
+          .ok (.alias a) := by rw [← hsl]; exact hc
+      have := hfit a hc'
+      rw [← hsl] at this
+      exact this) fuel
+
+open DirSim in
+/-- non-vacuity: for EVERY `k`, `create_file("N")` in the two-cluster directory of `Ex5` armed with a fault at call `k` -/
+example (k : Nat) : ∀ r d', run (createFile Ex3.env 1 (.file (FileH.new (some 2) none)) "N")
+      { Ex5.dev with failAt := some k } = (r, d') → FaultOutcome (resErr r) d' :=
+  createFile_propagates_chain (d := { Ex5.dev with failAt := some k }) (c0 := 2) (chain := [2, 3])
+    ⟨Ex5.readable.dir, Ex5.readable.fuel⟩ Ex5.wf rfl Ex3.env "N" "N" (by decide +kernel) rfl
+    (fun a _ => by
+      have : DirSlots.findFree (chainSlots Ex5.dev.fs Ex5.dev.img [2, 3])
+          (Lfn.numParts (Names.encodeUtf16 "N".toList).length + 1) +
+          (Lfn.numParts (Names.encodeUtf16 "N".toList).length + 1) ≤ [2, 3].length * (Ex5.dev.fs.clusterSize / 32) := by
+        decide +kernel
+      exact this) 0
+
+open DirSim in
+/-- non-vacuity for a SUB-DIRECTORY: for EVERY `k`, `create_file("H")` in the directory `A` of `Ex8` armed with a fault at
+    call `k` (`Ex8.VA` with `faultOK_ofSub`) -/
+example (k : Nat) : ∀ r d', run (createFile Ex3.env 1 (.file (FileH.new (some 2) (some Ex8.edA))) "H")
+      { Ex8.dev with failAt := some k } = (r, d') → FaultOutcome (resErr r) d' :=
+  createFile_propagates_wview (d := { Ex8.dev with failAt := some k }) Ex8.VA rfl
+    (faultOK_ofSub _ _ _ _ _ _ _ _ _ _ _) Ex3.env "H" "H" (by decide +kernel) rfl
+    (fun a _ => by
+      have : DirSlots.findFree (Ex8.VA.slots Ex8.dev.img) (Lfn.numParts (Names.encodeUtf16 "H".toList).length + 1) +
+          (Lfn.numParts (Names.encodeUtf16 "H".toList).length + 1) ≤ Ex8.VA.N := by decide +kernel
       exact this) 0
 
 end FatVerif
